@@ -632,13 +632,30 @@ def free_part(pid, V, rng, quick, st):
         for x in menu:
             c = render_insert(x)
             pts.append({"id": x["id"], "ts": x["ts"], "dims": c["dims"], "vals": c["vals"]})
-        p = subprocess.run([zk, "-mode", "free", "-dir", os.path.join(d, "data")], input=json.dumps({"tables": [t.define() for t in tables], "points": pts, "paceUs": pace}),
+        p = subprocess.run([zk, "-mode", "free", "-dir", os.path.join(d, "data"), "-rec", os.path.join(d, "rec.ndjson"), "-life", "f%d" % di],
+                           input=json.dumps({"tables": [t.define() for t in tables], "points": pts, "paceUs": pace}),
                            stdout=subprocess.PIPE, stderr=subprocess.PIPE, text=True, timeout=300)
+        evs = []
+        if os.path.exists(os.path.join(d, "rec.ndjson")):
+            for line in open(os.path.join(d, "rec.ndjson")):
+                try:
+                    e = json.loads(line)
+                except ValueError:
+                    continue
+                e["seq"] += di * 10 ** 7
+                evs.append(e)
         shutil.rmtree(d, ignore_errors=True)
-        return di, menu, p.returncode, [json.loads(l) for l in p.stdout.splitlines() if l.startswith('{"a":"Free"')], p.stderr[:1500]
+        return di, menu, p.returncode, [json.loads(l) for l in p.stdout.splitlines() if l.startswith('{"a":"Free"')], p.stderr[:1500], evs
 
     with ThreadPoolExecutor(6) as ex:
         results = list(ex.map(one, jobs))
+    all_evs = [e for r_ in results for e in r_[5]]
+    results = [r_[:5] for r_ in results]
+    if all_evs:
+        # (T) every scan of the free-running processes takes the file store installed at that
+        # moment, between complete flush steps: the events against spec/TracePipe.tla
+        import pipe_checks
+        pipe_checks.events_part(pid, V, all_evs, work, st, "free", "the free-running processes (inserts, timer flushes, scans)")
     for di, menu, rc, lines, err in results:
         if rc != 0 or not lines:
             m = re.search(r"^(?:panic|fatal error): (.*)$", err, re.M)
@@ -1304,9 +1321,10 @@ def check_C18(args):
                             racing += 1
                             break
                         j += 1
-        return {"held_scans": held, "held_scans_overlapping_an_apply_or_swap_of_their_table": racing,
-                "free_running_processes": fst["dirs"], "free_running_scan_results": fst["results"],
-                "free_running_results_of_a_strict_prefix": fst["strict_prefixes"]}
+        return dict({"held_scans": held, "held_scans_overlapping_an_apply_or_swap_of_their_table": racing,
+                     "free_running_processes": fst["dirs"], "free_running_scan_results": fst["results"],
+                     "free_running_results_of_a_strict_prefix": fst["strict_prefixes"]},
+                    **{k: v for k, v in fst.items() if k.startswith("pipeline_trace")})
 
     fst = {"dirs": 0, "results": 0, "nonempty": 0, "strict_prefixes": 0}
 
